@@ -29,6 +29,8 @@ def proto(kind, name):
         return ContinuousMultiVariable(name=name, lower_bounds=[0, -5], upper_bounds=[10, 0])
     if kind == 'D':
         return DiscreteVariable(name=name, choices=['p', 'q', 'r'])
+    if kind == 'DL':      # a scalar choice variable whose choices are themselves lists of different lengths
+        return DiscreteVariable(name=name, choices=[[16], [32, 16], [64, 32, 16], []])
     if kind == 'DM1':
         return DiscreteMultiVariable(name=name, choices=[[10, 20]])
     if kind == 'DM2':
@@ -46,7 +48,7 @@ def proto(kind, name):
     raise KeyError(kind)
 
 
-KINDS = ['C', 'CM1', 'CM2', 'D', 'DM1', 'DM2', 'DM3', 'B1', 'B2', 'P3', 'MO2']
+KINDS = ['C', 'CM1', 'CM2', 'D', 'DL', 'DM1', 'DM2', 'DM3', 'B1', 'B2', 'P3', 'MO2']
 
 
 def leaves(v):
@@ -113,6 +115,20 @@ def check_task(cx, kinds, cap):
                 if np.any(np.asarray(lb[j]) > np.asarray(ub[j])):
                     fail('get_bounds-lower-above-upper', f"coordinate {j}")
                     break
+        # a caller that edits the arrays it was handed must not change what the task reports afterwards
+        try:
+            lb *= 0.5
+            ub += 1.0
+        except Exception:
+            pass
+        lb2, ub2 = t.get_bounds()
+        for j, (wl, wu) in enumerate(want):
+            if isinstance(wl, list):
+                continue
+            if float(lb2[j]) != float(wl) or float(ub2[j]) != float(wu):
+                fail('get_bounds-aliased-to-internal-state', f"after the caller edited the returned arrays, coordinate {j} "
+                     f"reports ({lb2[j]}, {ub2[j]}) instead of ({wl}, {wu})")
+                break
     except Exception as e:
         fail('get_bounds-raises' + ('|permutation-next-to-other-variables' if has_perm_mix else ''),
              f"{type(e).__name__}: {str(e)[:100]}")
